@@ -46,6 +46,14 @@ class Color(enum.Enum):
     BLUE = 2
 
 
+class FSub(float):
+    """a user-defined float subclass (numeric promotion must reach it: float subclass -> complex)"""
+
+
+class ISub(int):
+    """a user-defined int subclass"""
+
+
 CLASSES = {"A": A, "B": B}
 SCALARS = {"int": int, "bool": bool, "float": float, "complex": complex, "str": str, "bytes": bytes, "object": object}
 
@@ -342,7 +350,8 @@ def _admits_str(t) -> bool:
 # ----------------------------------------------------------------------------------------
 
 OBJECT_KINDS = ["int", "bool", "str", "none", "float", "tuple0", "tuple1", "tuple2", "tuple_is", "list0", "list1", "list2",
-                "dict0", "dict_a", "dict_ab", "dict_an", "set1", "fset1", "bytes0", "bytes1", "enum", "instA", "instB", "clsA", "clsB", "clsint"]
+                "dict0", "dict_a", "dict_ab", "dict_an", "set1", "fset1", "bytes0", "bytes1", "enum", "instA", "instB", "clsA", "clsB", "clsint",
+                "fsub", "isub", "cplx"]
 
 
 def make_object(kind: str, oi, oj, s):
@@ -399,11 +408,19 @@ def make_object(kind: str, oi, oj, s):
         return B
     if kind == "clsint":
         return int
+    if kind == "fsub":
+        return _FSUB
+    if kind == "isub":
+        return _ISUB
+    if kind == "cplx":
+        return 1j
     raise AssertionError(kind)
 
 
 _INST_A = A()
 _INST_B = B()
+_FSUB = FSub(2.5)
+_ISUB = ISub(7)
 
 # ----------------------------------------------------------------------------------------
 # vocabulary
@@ -533,11 +550,13 @@ def _compatible_kinds(tb) -> List[str]:
     """object kinds that can possibly be members of tb (others make the obligation vacuous)"""
     k = tb[0]
     if k in ("int", "gt", "ge", "lt", "le", "mult"):
-        return ["int", "bool"]
+        return ["int", "bool", "isub"]
     if k == "bool":
         return ["bool"]
-    if k in ("float", "complex"):
-        return ["int", "bool", "float"]
+    if k == "float":
+        return ["int", "bool", "float", "fsub", "isub"]
+    if k == "complex":
+        return ["int", "bool", "float", "fsub", "cplx"]
     if k == "str":
         return ["str"]
     if k == "none":
